@@ -66,6 +66,27 @@ def build_lexicon(lid, g):
         qs = [mk.synset(f'{q}-{i}', pos[i], _ili(lid, i), relations=rels[i]) for i in range(n)]
         ps = [mk.synset(f'{lid}-{i}', pos[i], _ili(lid, i)) for i in range(n) if g['real'] >> i & 1]
         return [mk.lexicon(lid, synsets=ps), mk.lexicon(q, synsets=qs)], edges, hypo
+    if 'ext' in g:
+        # extension mode: the nodes of mask ext['nodes'] and the edges of mask ext['edges'] (index into the edge
+        # list; plus every edge touching an extension node) are declared by the lexicon extension <lid>x, the
+        # reciprocal hyponym with its hypernym edge. scope 'both' queries base + extension and must see the
+        # whole graph, scope 'base' only the base part.
+        xn, xe = g['ext']['nodes'], g['ext']['edges']
+        in_x = {(i, j) for k, (i, j) in enumerate(edges) if xe >> k & 1 or xn >> i & 1 or xn >> j & 1}
+        brel = {i: [] for i in range(n)}
+        xrel = {i: [] for i in range(n)}
+        for (i, j) in edges:
+            (xrel if (i, j) in in_x else brel)[i].append(mk.rel(f'{lid}-{j}', 'hypernym'))
+            (xrel if (i, j) in in_x else brel)[j].append(mk.rel(f'{lid}-{i}', 'hyponym'))
+        base = mk.lexicon(lid, synsets=[mk.synset(f'{lid}-{i}', pos[i], relations=brel[i])
+                                        for i in range(n) if not xn >> i & 1])
+        xs = [mk.synset(f'{lid}-{i}', pos[i], relations=xrel[i]) for i in range(n) if xn >> i & 1]
+        xs += [{'id': f'{lid}-{i}', 'external': True, 'relations': xrel[i]}
+               for i in range(n) if not xn >> i & 1 and xrel[i]]
+        ext = mk.lexicon(lid + 'x', extends={'id': lid, 'version': '1'}, synsets=xs)
+        if g.get('scope') == 'base':
+            edges = [e for e in edges if e not in in_x]
+        return [base, ext], edges, {(j, i) for (i, j) in edges}
     syns = [mk.synset(f'{lid}-{i}', pos=pos[i], relations=rels[i]) for i in range(n)]
     return [mk.lexicon(lid, synsets=syns)], edges, hypo
 
@@ -106,6 +127,11 @@ def check_graph(lid, g, edges, hypo):
         real = [i for i in range(n) if g['real'] >> i & 1]
         ss = {i: w.synset(f'{lid}-{i}') for i in real}
         _discover(ss, lid)
+    elif 'ext' in g:
+        both = g.get('scope') != 'base'
+        w = wn.Wordnet(lexicon=f'{lid}:1 {lid}x:1' if both else f'{lid}:1')
+        real = [i for i in range(n) if both or not g['ext']['nodes'] >> i & 1]
+        ss = {i: w.synset(f'{lid}-{i}') for i in real}
     else:
         w = wn.Wordnet(lexicon=f'{lid}:1')
         real = list(range(n))
@@ -270,7 +296,9 @@ def check(case):
         lex, edges, hypo = build_lexicon(lid, g)
         lexs.extend(lex)
         built.append((lid, g, edges, hypo))
-    env.add_resource(mk.resource(lexs))
+    env.add_resource(mk.resource([x for x in lexs if not x.get('extends')]))
+    if any(x.get('extends') for x in lexs):
+        env.add_resource(mk.resource([x for x in lexs if x.get('extends')]))
     V, digs, nt = [], [], 0
     for lid, g, edges, hypo in built:
         v, d = check_graph(lid, g, edges, hypo)
@@ -399,6 +427,17 @@ def space(tier, seed):
     for h in range(1 << 12):
         for r in ((1, 2, 3, 4) if tier == 'thorough' else (1, 2)):
             gs.append({'n': 4, 'loops': False, 'h': h, 'real': (1 << r) - 1})
+    # extension mode: part of the graph (one node or none, one edge / all edges / none beyond the node's)
+    # is contributed by a lexicon extension; seen with and without the extension in scope
+    for n, hs in ((3, range(1, 1 << 6)), (4, dag_masks(4) if tier == 'quick' else range(1, 1 << 12))):
+        for h in hs:
+            ne = bin(h).count('1')
+            for xn in (0, 1 << (n - 1)):
+                for xe in sorted({0, (1 << ne) - 1} | ({1 << k for k in range(ne)} if n == 3 or tier == 'thorough' else {1})):
+                    if not xn and not xe:
+                        continue
+                    for scope in ('both', 'base'):
+                        gs.append({'n': n, 'loops': False, 'h': h, 'ext': {'nodes': xn, 'edges': xe}, 'scope': scope})
     if tier == 'thorough':
         for h in range(1 << 16):
             if any(h >> k & 1 for k in (0, 5, 10, 15)):   # the ones with >=1 self-loop
